@@ -71,7 +71,7 @@ def generate(rng, tier, run):
     recipes = []
     # contexts first (one to three), more may come later
     for _ in range(rng.randint(1, 3)):
-        r = [rng.choice(['K0', 'K1', 'K1', 'K2', 'K2', 'KD'])]
+        r = [rng.choice(['K0', 'K1', 'K1', 'K2', 'K2', 'KD', 'K3'])]
         ops.append(['mkctx', r])
         recipes.append(r)
     # per-program document pool: the same documents come back at different points of the history
@@ -82,14 +82,14 @@ def generate(rng, tier, run):
         key = json.dumps(r)
         if key not in docs:
             kind = docgen.base_kind(r)
-            kind2 = 'K0' if kind == 'KD' else kind
+            kind2 = 'K0' if kind in ('KD', 'K3') else kind
             lst = []
             for _ in range(rng.randint(2, 5)):
                 if rng.random() < 0.3:
                     cands = [d for k, d in gpool if k == kind2]
                     lst.append(rng.choice(cands))
                 else:
-                    lst.append(docgen.DocGen(rng, r if kind != 'KD' else ['K0']).document())
+                    lst.append(docgen.DocGen(rng, r).document())
             # make sure stateful kinds are present in K1/K2 pools
             if kind in ('K1', 'K2') and not any(any(m in d for m in STATEFUL_MARKS) for d in lst):
                 lst.append(rng.choice(['\\mv{a{b}c} tail', 'x \\mw{p{q}r}', '\\mz*[a[b]c]', '\\mvv{a}{b{c}}']))
@@ -103,7 +103,7 @@ def generate(rng, tier, run):
         doc = rng.choice(pool)
         tolerant = rng.random() < 0.35
         if x < 0.04 and len(recipes) < MAX_CTX:
-            r = [rng.choice(['K0', 'K1', 'K2', 'KD'])]
+            r = [rng.choice(['K0', 'K1', 'K2', 'KD', 'K3'])]
             ops.append(['mkctx', r])
             recipes.append(r)
         elif x < 0.10 and len(recipes) < MAX_CTX and recipes[ci][0] != 'KD':
@@ -124,9 +124,19 @@ def generate(rng, tier, run):
             d = rng.choice(['', ' ', 'x']) + g.arg(spec, 2) + rng.choice(['', ' tail', '{z}'])
             pos = 0 if d[:1] != 'x' else 1
             ops.append(['parse', ci, d, tolerant, ['stdarg', spec, kw, pos]])
-        elif x < 0.36:
+        elif x < 0.34:
             pos = rng.randrange(len(doc) + 1) if doc else 0
             ops.append(['parse', ci, doc, tolerant, ['legacy', pos]])
+        elif x < 0.37:
+            pos = rng.randrange(len(doc) + 1) if doc else 0
+            if rng.random() < 0.5:
+                ops.append(['parse', ci, doc, tolerant,
+                            ['legacy2', rng.choice(['expression', 'braced_group', 'environment',
+                                                    'maybe_optional_arg', 'token']), pos]])
+            else:
+                ops.append(['parse', ci, doc, tolerant,
+                            ['parser', rng.choice(['expression', 'group', 'anygroup', 'math', 'optsq', 'single']),
+                             pos, rng.random() < 0.3]])
         elif batch == 'aborts' and x < 0.62:
             kind = rng.choice(ABORT_KINDS)
             if kind == 'strict_error':
@@ -139,6 +149,9 @@ def generate(rng, tier, run):
                 o, c = rng.choice([('{', '}'), ('\\mb{', '}'), ('\\mv{', '}'), ('$\\mb{', '}$')])
                 ops.append(['abort', ci, doc + o * n + 'a' + c * n, 'recursion', 0])
             else:
+                st = [d for d in pool if any(m in d for m in STATEFUL_MARKS)]
+                if st and rng.random() < 0.6:
+                    doc = rng.choice(st)
                 ops.append(['abort', ci, doc, 'interrupt', rng.randint(1, 70 * len(doc) + 60)])
         elif x < 0.66:
             ops.append(['parse', ci, docgen.token_soup(rng), tolerant, ['general']])
@@ -199,6 +212,33 @@ def do_op(ctx, kind, op, clock=None):
                 r = w.get_latex_nodes(pos=entry[1])
                 nodes, p, ln = r
                 return {'legacy': D.Dumper().result(nodes), 'pos': p, 'len': ln}
+        elif entry[0] == 'legacy2':
+            def go():
+                which, pos = entry[1], entry[2]
+                if which == 'token':
+                    return {'token': D.dump_token(w.get_token(pos))}
+                fn = {'expression': w.get_latex_expression, 'braced_group': w.get_latex_braced_group,
+                      'environment': w.get_latex_environment,
+                      'maybe_optional_arg': w.get_latex_maybe_optional_arg}[which]
+                r = fn(pos)
+                if r is None:
+                    return {'legacy2': None}
+                nodes, p, ln = r
+                return {'legacy2': D.Dumper().result(nodes), 'pos': p, 'len': ln}
+        elif entry[0] == 'parser':
+            def go():
+                from pylatexenc.latexnodes import parsers as P
+                name, pos, math = entry[1], entry[2], entry[3]
+                parser = {'expression': lambda: P.LatexExpressionParser(),
+                          'group': lambda: P.LatexDelimitedGroupParser(delimiters=('{', '}')),
+                          'anygroup': lambda: P.LatexDelimitedGroupParser(delimiters=None, optional=True),
+                          'math': lambda: P.LatexMathParser(math_mode_delimiters=None),
+                          'optsq': lambda: P.LatexOptionalSquareBracketsParser(),
+                          'single': lambda: P.LatexSingleNodeParser()}[name]()
+                tr = w.make_token_reader(pos=pos)
+                ps = w.make_parsing_state(in_math_mode=True) if math else None
+                nodes, delta = w.parse_content(parser, token_reader=tr, parsing_state=ps)
+                return dict(D.Dumper().result(nodes, delta), end_pos=tr.cur_pos())
         else:
             def go():
                 from pylatexenc.latexnodes.parsers import get_standard_argument_parser
@@ -418,9 +458,11 @@ class Companion(object):
         self.proc = subprocess.Popen([core.PYTHON, '-B', os.path.join(core.SIM_DIR, 'oracle.py')],
                                      stdin=subprocess.PIPE, stdout=subprocess.PIPE, env=env)
 
-    def ask(self, recipe, request):
+    def send(self, recipe, request):
         self.proc.stdin.write((json.dumps([recipe, request]) + '\n').encode('utf-8'))
         self.proc.stdin.flush()
+
+    def recv(self):
         line = self.proc.stdout.readline()
         if not line:
             raise core.HarnessError("companion reference server died")
@@ -428,6 +470,10 @@ class Companion(object):
         if rep[0] != 'ok':
             raise core.HarnessError("companion reference server: %s" % (rep[1],))
         return rep[1]
+
+    def ask(self, recipe, request):
+        self.send(recipe, request)
+        return self.recv()
 
     def close(self):
         try:
@@ -437,21 +483,41 @@ class Companion(object):
             self.proc.kill()
 
 
-def _references(env, recipe, request, stats):
-    key = core.canon([recipe, request])
+def _prefetch(env, wanted, stats):
+    """Resolve all reference answers a program needs: the companion works on its
+    queue while this process does the same-hash-seed pristine forks."""
     cache = env.cache.setdefault('c09-ref', {})
-    if key in cache:
-        stats.inc('reference-cache-hits')
-        return cache[key]
+    if len(cache) > 20000:
+        cache.clear()
     if 'c09-companion' not in env.cache:
         hs = (int(env.hashseed or 0) + 7) if str(env.hashseed or '0').isdigit() else 7
         env.cache['c09-companion'] = Companion(hs)
-    a = env.pristine(reference_single, recipe, request)
-    b = env.cache['c09-companion'].ask(recipe, request)
-    stats.inc('reference-forks', 2)
-    if len(cache) > 20000:
-        cache.clear()
-    cache[key] = (a, b)
+    comp = env.cache['c09-companion']
+    todo = []
+    seen = set()
+    for recipe, request in wanted:
+        key = core.canon([recipe, request])
+        if key in cache:
+            stats.inc('reference-cache-hits')
+        elif key not in seen:
+            seen.add(key)
+            todo.append((key, recipe, request))
+    # keep the amount of unread companion output bounded: windows of 8 requests
+    for i in range(0, len(todo), 8):
+        win = todo[i:i + 8]
+        for key, recipe, request in win:
+            comp.send(recipe, request)
+        local = [env.pristine(reference_single, recipe, request) for key, recipe, request in win]
+        for (key, recipe, request), a in zip(win, local):
+            cache[key] = (a, comp.recv())
+            stats.inc('reference-forks', 2)
+
+
+def _references(env, recipe, request, stats):
+    key = core.canon([recipe, request])
+    cache = env.cache.setdefault('c09-ref', {})
+    if key not in cache:
+        _prefetch(env, [(recipe, request)], stats)
     return cache[key]
 
 
@@ -466,6 +532,14 @@ def run_program(program, env):
     trace = out['trace']
     violation = None
     stateful_positions = []
+    wanted = []
+    for i, rec in enumerate(trace):
+        if rec.get('compare') and not is_recursion(rec['result']):
+            wanted.append((rec['recipe'], rec['request']))
+            if rec['op'] == 'parse_nested':
+                op = program['ops'][i]
+                wanted.append((rec['recipe'], ['parse', 0, op[3], op[4], ['general']]))
+    _prefetch(env, wanted, stats)
     for i, rec in enumerate(trace):
         if rec.get('skipped') or rec['op'] in ('mkctx', 'noise'):
             continue
